@@ -4,6 +4,7 @@ import PysnarkModel.Lemmas.BranchInv
 import PysnarkModel.Lemmas.BranchObl
 import PysnarkModel.Lemmas.BranchGuard
 import PysnarkModel.Lemmas.BranchKinds
+import PysnarkModel.Lemmas.BranchLen
 /-!
 # C09 — oblivious if/elif/else, while and for compute what native control flow computes
 
@@ -18,8 +19,8 @@ with a secret bound and a public maximum, `while` with a public cap and an optio
 arbitrary nesting.  `runBlockT` is the model of the rendered Python source run against
 `pysnark/branching.py` (the merge at a block exit as `BranchContext.exit()` does it for every kind:
 identity shortcut, deep-copied snapshot that re-creates booleans and fixed-point numbers,
-element-wise merge of lists, fixed-point coercion, kind changes; a selection between two booleans is
-a boolean); `nativeRunT`
+element-wise merge of lists of one length — a length mismatch is refused with `ValueError` —,
+fixed-point coercion, kind changes; a selection between two booleans is a boolean); `nativeRunT`
 (`Spec/Native.lean`) is the same program with native Python control flow on plain values (Python
 ints, exact multiples of `2^-r` for fixed point, lists).
 
@@ -34,9 +35,10 @@ ints, exact multiples of `2^-r` for fixed point, lists).
   `LinCombBool`, `LinCombFxp`, lists element-wise) — in particular a tracked boolean is still a
   `LinCombBool` after all the blocks it lived through.  "The traced run completes" carries the
   side conditions of the library (a comparison raises when its operands leave the bit length,
-  reading an unbound variable raises, binding a variable in only some arms raises) and of the model
-  (operand kinds for which the library computes something else than Python — `LinComb < LinCombFxp`,
-  fixed point times fixed point — and merges of lists of different lengths stop it).
+  reading an unbound variable raises, binding a variable in only some arms raises, a selection between
+  lists of different lengths — in particular a block that rebinds a tracked list to a list of another
+  length — raises: `C09_length_mismatch_refused`) and of the model (operand kinds for which the library
+  computes something else than Python — `LinComb < LinCombFxp`, fixed point times fixed point — stop it).
 * `C09_refines_int` — the same for integer variables and inputs only (`runBlock` / `nativeRun`).
 * `C09_guard_restored` — after every completed run (statement) the guard triple (active guard,
   error suppression, `LinComb.ONE`) is what it was, whatever the conditions were; no context is open.
@@ -53,6 +55,15 @@ ints, exact multiples of `2^-r` for fixed point, lists).
   (`C09_boolean_kept_regression`: the closed run of the repaired finding C09-boolean-demoted; before
   the repair `if_then_else` returned `copy + cond*(b - copy)`, a plain `LinComb`, for two booleans and
   the later block raised `RuntimeError('Wrong type for if_then_else condition')`).
+* `C09_length_mismatch_refused` (`_sel`, `_exit`) — `if_then_else` on two lists of different lengths
+  raises `ValueError` before it merges anything, in every state and under every guard: at the value
+  level, as the statement `_.x = if_then_else(c, t, f)`, and at a block exit where an arm or a loop
+  round rebound a tracked list to a list of another length (native Python would rebind; no
+  element-wise merge can express that, so the run is refused).  `C09_never_truncated` (`_exit`) — a
+  merge that completes returns a value with the list structure (every length, at every nesting depth)
+  of BOTH operands, so no element is ever dropped.  `C09_length_mismatch_regression` — the closed runs
+  of the repaired finding C09-list-length-truncated (before the repair the merge went through `zip`
+  and `if c: l = [8, 9, 10]` on a two-element list ended as `[8, 9]`).
 * `C09_sat` — every constraint emitted by a completed run holds on the recorded witness, every
   tracked scalar is coherent with its wire expression and every tracked boolean is 0 or 1 (all
   nesting depths: the effective guard of a nested block is the bitwise AND of the enclosing guard
@@ -348,6 +359,114 @@ theorem C09_boolean_kept_regression :
         E == [(0, [256]), (1, [6 * 256])] && satAll s && bs.stack.isEmpty
       | _, _ => false) = true := by
   first | decide +kernel | fail "C09_boolean_kept_regression: the closed run no longer evaluates to the recorded values"
+
+/-! ## lists of different lengths are refused, never truncated (repaired finding C09-list-length-truncated) -/
+
+/-- **a length mismatch is refused**: `if_then_else(cond, truev, falsev)` on two lists of different
+lengths raises `ValueError`, whatever the condition, the elements, the state and the guard are, and
+before anything is merged (no constraint is emitted: the result is the error itself) -/
+theorem C09_length_mismatch_refused (cond : LinComb) (ts fs : List TVal) (n : Nat) (s : St)
+    (hl : ts.length ≠ fs.length) :
+    mergeT cond (.node ts) (.node fs) n s = .error .value :=
+  mergeT_len_refused n s hl
+
+/-- the statement `_.x = if_then_else(c, t, f)` whose two (evaluated) branches are lists of different
+lengths ends the run with `ValueError` -/
+theorem C09_length_mismatch_refused_sel (env : BEnv) (x : Nat) (c : BCond) (t f : BExpr) (bs : BSt) (s s1 s2 s3 : St)
+    (cl : LinComb) (ts fs : List TVal) (n1 n2 : Nat)
+    (hc : evalC env bs.bv c s = .ok (.lcb cl, s1))
+    (ht : evalE env bs.bv.vals t bs.bv.next s1 = .ok ((.node ts, n1), s2))
+    (hf : evalE env bs.bv.vals f n1 s2 = .ok ((.node fs, n2), s3))
+    (hl : ts.length ≠ fs.length) :
+    execStmt env (.sel x c t f) bs s = .error .value :=
+  sel_len_refused hc ht hf hl
+
+/-- `BranchContext.exit()` — the end of an arm or of a loop round — when the arm rebound a tracked
+list to a list of another length: `ValueError` (native Python would simply rebind the name; that can
+not be expressed by an element-wise selection, so the run is REFUSED).  Stated for the first variable
+of the dictionary, in the first arm / round of the context, every variable bound before the block. -/
+theorem C09_length_mismatch_refused_exit (ctx : BCtx) (bv : BV) (s s1 : St) (x : Nat) (ts fs : List TVal) (rest : Vals)
+    (hg : restoreGuard ctx.origguard s = .ok ((), s1)) (hn : ctx.nodefvals = none)
+    (hv : bv.vals = (x, .node ts) :: rest) (hall : ∀ kv ∈ bv.vals, ctx.bak.has kv.1 = true)
+    (hb : ctx.bak.get? x = some (.node fs)) (hl : ts.length ≠ fs.length) :
+    ctx.exit bv s = .error .value :=
+  exit_len_refused hg hn hv hall hb hl
+
+/-- **never truncated**: a selection that completes returns a value with the list structure
+(`PTree.skel`: all lengths at every nesting depth) of `truev`, and `falsev` has that structure too;
+for two lists: the result has the length of both -/
+theorem C09_never_truncated (cond : LinComb) (t f r : TVal) (n n' : Nat) (s s' : St)
+    (h : mergeT cond t f n s = .ok ((r, n'), s')) :
+    r.skel = t.skel ∧ r.skel = f.skel ∧
+    ∀ ts fs, t = .node ts → f = .node fs → ∃ rs, r = .node rs ∧ rs.length = ts.length ∧ rs.length = fs.length := by
+  obtain ⟨h1, h2⟩ := mergeT_skel h
+  refine ⟨h1, h1.trans h2.symm, ?_⟩
+  rintro ts fs rfl rfl
+  exact mergeT_node_length h
+
+/-- the same at a block exit that completes: every variable merged with its snapshot leaves the block
+with the list structure it had in the arm and the one it had before the block -/
+theorem C09_never_truncated_exit (ctx ctx' : BCtx) (bv bv' : BV) (s s' : St)
+    (h : ctx.exit bv s = .ok ((ctx', bv'), s')) (x : Nat) (r : TVal) (hx : bv'.vals.get? x = some r) :
+    ∃ t f, bv.vals.get? x = some t ∧ ctx.bak.get? x = some f ∧ r.skel = t.skel ∧ r.skel = f.skel :=
+  exit_skel h x r hx
+
+def runErr (init : List (Nat × IVal)) (inputs : List Int) (finputs : List (Int × Nat)) (prog : BBlock) (s0 : St) : Option Err :=
+  match runBlockT init inputs finputs prog s0 with
+  | .error e => some e
+  | .ok _ => none
+
+/-- `[in0 + 7, in0 + 8, in0 + 9]`, `[in0 + 7, in0 + 8]`, `[x0[0]]` -/
+def exLit3 : BExpr := .list (.cons (.add (.inp 0) (.const 7)) (.cons (.add (.inp 0) (.const 8)) (.cons (.add (.inp 0) (.const 9)) .nil)))
+def exLit2 : BExpr := .list (.cons (.add (.inp 0) (.const 7)) (.cons (.add (.inp 0) (.const 8)) .nil))
+def exLit1 : BExpr := .list (.cons (.item (.var 0) 0) .nil)
+/-- `if in0 == 1: x0 = [in0 + 7, in0 + 8, in0 + 9]` on a tracked list of two elements (the replay of the finding) -/
+def exLenIf : BBlock := .cons (.ifs (.cmp .eq (.inp 0) (.const 1)) (.cons (.assign 0 exLit3) .nil) .endif) .nil
+/-- the same block with a list of the SAME length -/
+def exLenSame : BBlock := .cons (.ifs (.cmp .eq (.inp 0) (.const 1)) (.cons (.assign 0 exLit2) .nil) .endif) .nil
+/-- `for l0 in _range(in1, max=2): x0 = [x0[0]]` -/
+def exLenFor : BBlock := .cons (.forr 0 (.inp 1) 2 (.cons (.assign 0 exLit1) .nil)) .nil
+/-- `x1 = if_then_else(in0 == 1, [x0[0]], x0)` on values, and on lazily evaluated branches -/
+def exLenSel : BBlock := .cons (.sel 1 (.cmp .eq (.inp 0) (.const 1)) exLit1 (.var 0)) .nil
+def exLenIte : BBlock := .cons (.ite 1 (.cmp .eq (.inp 0) (.const 1)) exLit1 (.var 0)) .nil
+/-- `if in0 == 1: x0[1] = [in0 + 7, in0 + 8]` on `x0 = [[1, 2], [3]]`: a ROW changes its length -/
+def exLenRow : BBlock := .cons (.ifs (.cmp .eq (.inp 0) (.const 1)) (.cons (.setitem 0 [1] exLit2) .nil) .endif) .nil
+def exLenInit : List (Nat × IVal) := [(0, .node [.leaf (.int 1), .leaf (.int 2)])]
+def exLenInitM : List (Nat × IVal) := [(0, .node [.node [.leaf (.int 1), .leaf (.int 2)], .node [.leaf (.int 3)]])]
+
+/-- REGRESSION STATEMENT of the repaired finding C09-list-length-truncated (`fix:` commit in
+`if_then_else`: `if len(truev) != len(falsev): raise ValueError`).  Every way in which the two
+operands of a list merge can differ in length is refused with `ValueError`, whichever way the
+condition goes (the merge is made in both cases: the run is oblivious): a block that rebinds a
+tracked list of two elements to three (before the repair: `[8, 9]` for a true condition, native
+`[8, 9, 10]`), a loop round that rebinds it to one (refused even for the bound 0, where the native
+loop does not run at all), a selection on values and on lazily evaluated branches, a row of a list
+of lists replaced by a longer one.  The native runs complete with the rebound lists (in units of
+`2^-8`): the refusal is a restriction of the library, stated, not a wrong value.  The same block with
+a list of the SAME length runs and ends with the native values. -/
+theorem C09_length_mismatch_regression :
+    ((runErr exLenInit [1] [] exLenIf (St.init 97 3 8) == some .value &&
+     runErr exLenInit [0] [] exLenIf (St.init 97 3 8) == some .value &&
+     natVals 8 (nativeRunT 8 exLenInit [1] [] exLenIf) == some [(0, [2048, 2304, 2560])] &&
+     natVals 8 (nativeRunT 8 exLenInit [0] [] exLenIf) == some [(0, [256, 512])]) &&
+    (runErr exLenInit [0, 2] [] exLenFor (St.init 97 3 8) == some .value &&
+     runErr exLenInit [0, 0] [] exLenFor (St.init 97 3 8) == some .value &&
+     natVals 8 (nativeRunT 8 exLenInit [0, 2] [] exLenFor) == some [(0, [256])] &&
+     natVals 8 (nativeRunT 8 exLenInit [0, 0] [] exLenFor) == some [(0, [256, 512])]) &&
+    (runErr exLenInit [1] [] exLenSel (St.init 97 3 8) == some .value &&
+     runErr exLenInit [0] [] exLenSel (St.init 97 3 8) == some .value &&
+     runErr exLenInit [1] [] exLenIte (St.init 97 3 8) == some .value &&
+     runErr exLenInit [0] [] exLenIte (St.init 97 3 8) == some .value &&
+     natVals 8 (nativeRunT 8 exLenInit [1] [] exLenSel) == some [(0, [256, 512]), (1, [256])] &&
+     natVals 8 (nativeRunT 8 exLenInit [0] [] exLenSel) == some [(0, [256, 512]), (1, [256, 512])]) &&
+    (runErr exLenInitM [1] [] exLenRow (St.init 97 3 8) == some .value &&
+     runErr exLenInitM [0] [] exLenRow (St.init 97 3 8) == some .value &&
+     natVals 8 (nativeRunT 8 exLenInitM [1] [] exLenRow) == some [(0, [256, 512, 2048, 2304])]) &&
+    ((runValsT exLenInit [1] [] exLenSame (St.init 97 3 8)).map (·.1) == some [(0, [8, 9])] &&
+     (runValsT exLenInit [0] [] exLenSame (St.init 97 3 8)).map (·.1) == some [(0, [1, 2])] &&
+     natVals 8 (nativeRunT 8 exLenInit [1] [] exLenSame) == some [(0, [2048, 2304])] &&
+     natVals 8 (nativeRunT 8 exLenInit [0] [] exLenSame) == some [(0, [256, 512])])) = true := by
+  first | decide +kernel | fail "C09_length_mismatch_regression: the closed runs no longer evaluate to the recorded values"
 
 /-! ## non-vacuity -/
 
